@@ -556,6 +556,10 @@ void DNS::update_records(uint32_t& section_start,
             if (contains_dname(type)) {
                 update_dname(ptr, threshold, offset);
             }
+            else if (type == SOA) {
+                // mname followed by rname, both may be compressed
+                update_dname(update_dname(ptr, threshold, offset), threshold, offset);
+            }
             ptr += size;
         }
     }
